@@ -1,7 +1,7 @@
 """C14 — the comparable key sorts bytewise exactly as compare orders documents."""
 from .. import gen
-from . import common
-from .C04 import py_cmp, mutate, NAMES
+from . import common, sizes
+from .C04 import py_cmp, mutate, NAMES, rank
 
 SPEC_THEOREM = 'Props/C14: refuted in general (witness classes); embedding proved on the class key_safe_doc, containers included (C14_container_keys_order_as_compare)'
 TRUSTED = ['Coq 8.16.1 kernel', 'translator (levels)', 'extraction + OCaml driver', 'Rust harness', 'specification CmpKey.v (tree-level key, class key_safe_doc) and the offset-faithful walker ComparableWalk.v tied by correspondence']
@@ -65,11 +65,53 @@ def too_deep(v, d=0):
     return False
 
 
+def deciding(a, b, c=-1):
+    """walk both documents in parallel, as compare does, to the FIRST position where they differ: the pair that decides
+    compare.  c = depth of the container enclosing a and b (-1: they are the documents themselves).  Returns None when the
+    documents compare equal, else (what, x, y, depth of the innermost container around the position) with what =
+    'rank' (values of different kinds) | 'str' | 'num' | 'key' (member names differ) | 'len' (one container ends first)"""
+    if rank(a) != rank(b):
+        return ('rank', a, b, c)
+    k = a[0]
+    if k in 'nb':
+        return None
+    if k == 's':
+        return ('str', a, b, c) if a[1] != b[1] else None
+    if k in 'iud':
+        return ('num', a, b, c) if py_cmp(a, b) != 0 else None
+    if k == 'a':
+        for x, y in zip(a[1], b[1]):
+            r = deciding(x, y, c + 1)
+            if r:
+                return r
+    else:
+        for (k1, x), (k2, y) in zip(a[1], b[1]):
+            if k1 != k2:
+                return ('key', ('s', k1), ('s', k2), c + 1)
+            r = deciding(x, y, c + 1)
+            if r:
+                return r
+    return ('len', a, b, c + 1) if len(a[1]) != len(b[1]) else None
+
+
 def in_known_class(a, b):
-    if has_big_int(a) or has_big_int(b):
-        return 'comparable-key-big-int'
-    if too_deep(a) or too_deep(b):
+    """the open known-finding class of the pair, judged at the DECIDING position only (a big integer or a low byte somewhere
+    else in the documents excuses nothing):
+      * the position lies inside a container at depth >= 255 (its depth marker has saturated)      -> depth-saturation
+      * two numbers decide and one of them is an integer that no double represents exactly           -> big-int
+      * two strings / two member names decide and one of them has a byte that is not above the depth marker of its
+        container (depth of the container + 1): the byte can be taken for a marker                   -> marker-collision
+    anything else (different kinds, exact numbers, clean strings, one container ending first) is judged"""
+    r = deciding(a, b)
+    if r is None:
+        return None
+    what, x, y, c = r
+    if c >= 255:
         return 'comparable-key-depth-saturation'
+    if what == 'num' and not (num_exact(x) and num_exact(y)):
+        return 'comparable-key-big-int'
+    if what in ('str', 'key') and c >= 0 and any(bb <= c + 1 for s in (x[1], y[1]) for bb in s):
+        return 'comparable-key-marker-collision'
     return None
 
 
@@ -86,6 +128,19 @@ def generate(ctx):
         ids = (ctx.add('convert_to_comparable %s' % ea).id, ctx.add('convert_to_comparable %s' % eb).id,
                ctx.add('compare %s %s' % (ea, eb)).id)
         ctx.pairs.append((a, b, ids))
+    # strings / keys of 255 .. 65536 bytes and containers of 255 .. 1000 members against copies that differ at the very end
+    # (sizes.py; second review H2): the keys must order them as compare does (all of them are inside the proved class)
+    for lab, v in sizes.string_docs() + sizes.container_docs():
+        for m in sizes.end_mutants(v)[:1 if lab.startswith(('obj1000', 'arr1000')) else 3]:
+            if m[0] == 's':
+                try:
+                    m[1].decode('utf-8')
+                except UnicodeDecodeError:
+                    continue
+            ea, eb = gen.hexarg(gen.enc(v)), gen.hexarg(gen.enc(m))
+            ids = (ctx.add('convert_to_comparable %s' % ea).id, ctx.add('convert_to_comparable %s' % eb).id,
+                   ctx.add('compare %s %s' % (ea, eb)).id)
+            ctx.pairs.append((v, m, ids))
     # the byte walker on buffers that are NOT valid encodings (prefixes, one byte changed): tie only (ComparableWalk.v
     # models the early returns and the panics of convert_to_comparable on such buffers)
     small = [v for v in ds if len(gen.enc(v)) <= 100]
@@ -159,6 +214,7 @@ def judge(ctx):
             docs.setdefault(gen.hexarg(gen.enc(v)), v)
     keys = sorted(docs)
     out = core.run_cases(core.DRIVER_BIN, ['k%d key_safe_doc %s' % (i, h) for i, h in enumerate(keys)], ctx.pid + '-class')
+    core.require_outcomes(out, ['k%d' % i for i in range(len(keys))], 'C14 class membership by the extracted key_safe_doc')
     for i, h in enumerate(keys):
         want = 'ok =true' if key_safe_doc(docs[h]) else 'ok =false'
         if out.get('k%d' % i, 'missing') != want:
@@ -184,8 +240,7 @@ def judge(ctx):
                         case=[gen.vtext(a), gen.vtext(b)], observed={'keys': [ka, kb], 'key_order': kc, 'compare': c})
         elif kc != c:
             cls = in_known_class(a, b)
-            if cls is None and (has_low_bytes(a) or has_low_bytes(b)) and kc == 'ok =eq' or cls is None and (has_low_bytes(a) or has_low_bytes(b)):
-                cls = 'comparable-key-marker-collision'
+            ctx.count('mismatches_outside_the_proved_class_by_deciding_position', cls or 'no known class: judged')
             if cls and cls in ctx.open_classes:
                 ctx.known_hits[cls] = ctx.known_hits.get(cls, 0) + 1
             else:
